@@ -25,6 +25,20 @@ class C04(TalCheck):
     plans_per_template = 50
 
     def oracle(self, case, src, occ, tmpl, plan, hcfg, r, m, cover) -> list:
+        vs = self._judge(tmpl, plan, hcfg, r, m, cover)
+        if vs and m.get("guard_relevant"):
+            # C13's known finding F12 (a fallback loses the tags of an
+            # element with an omit-tag expression) and what follows from it
+            # (an emptied translation block is not translated): when the
+            # observation agrees in every respect with the model variant
+            # that drops those tags it is not an evaluation-order matter.
+            alt = run_model(tmpl, plan, hcfg, guard_tags=False)
+            if not self._judge(tmpl, plan, hcfg, r, alt, set()):
+                cover.add("f12-variant")
+                return []
+        return vs
+
+    def _judge(self, tmpl, plan, hcfg, r, m, cover) -> list:
         vs = []
         if r["history"] != m["history"]:
             sig = "history"
@@ -37,11 +51,7 @@ class C04(TalCheck):
             return vs
         rr, mr = r["raise"], m["raise"]
         if rr is None and mr is None:
-            if r["out"] != m["out"] and m.get("guard_relevant") and \
-                    run_model(tmpl, plan, hcfg,
-                              guard_tags=False)["out"] == r["out"]:
-                pass        # (C13's known finding, not an evaluation matter)
-            elif r["out"] != m["out"]:
+            if r["out"] != m["out"]:
                 vs.append({"kind": "result", "sig": "result",
                            "detail": f"rendered {r['out']!r}\n expected "
                                      f"{m['out']!r}"})
